@@ -149,8 +149,8 @@ func execAll(p Prop, cases []string) []Result {
 	nw := p.Workers
 	if nw <= 0 {
 		nw = runtime.NumCPU()
-		if nw > 12 {
-			nw = 12
+		if nw > 8 {
+			nw = 8
 		}
 	}
 	if nw > len(cases) {
